@@ -19,7 +19,9 @@ const CK_UUID: u128 = 0x0987_9557_e479_45a9_b434_a56377674627;
 
 #[derive(Clone, Debug, Serialize, Deserialize, PartialEq)]
 pub struct Spec {
-    /// login | transfer-nosecret | transfer-nocookie | transfer-cookie | login-secret
+    /// login | transfer-nosecret | transfer-nocookie | transfer-cookie | login-secret |
+    /// transfer-cookie-other-ip | transfer-cookie-expired | transfer-cookie-forged (a cookie for
+    /// `Cookie_Holder` that is genuine but issued to another address / genuine but too old / tagged with another secret)
     intent: String,
     /// honest | wrong-token | stale-token | other-key | garbage-N | secret-len-N | secret-garbage | token-garbage | token-prefix-N | token-extended-N
     enc: String,
@@ -29,7 +31,8 @@ pub struct Spec {
     /// claimed identity shape: ascii | unicode | nil-uuid
     claim: String,
     /// plain | one-byte (transport delivers and accepts one byte at a time) | slow-auth (the
-    /// authentication service takes 17 s, a keep-alive tick passes meanwhile) | slow-routing
+    /// authentication service takes 17 s, a keep-alive tick passes meanwhile) | auth-8s | auth-never
+    /// (the service does not answer within the horizon) | slow-routing
     #[serde(default)]
     transport: String,
 }
@@ -83,13 +86,16 @@ fn enc_of(s: &Spec, stale: &[u8]) -> EncKind {
 fn build(s: &Spec, stale: &[u8]) -> Case {
     let (cn, cu) = claim_of(s);
     let mut case = Case::default();
-    let secret_cfg = matches!(s.intent.as_str(), "transfer-nocookie" | "transfer-cookie" | "login-secret");
+    let secret_cfg = matches!(s.intent.as_str(), "transfer-nocookie" | "login-secret") || s.intent.starts_with("transfer-cookie");
     case.cfg.auth_secret = secret_cfg.then(|| COOKIE_SECRET.to_vec());
     let mut login = Login { name: cn, uuid: cu, enc: enc_of(s, stale), ..Default::default() };
     login.intent = if s.intent.starts_with("transfer") { 3 } else { 2 };
     login.auth_cookie = match s.intent.as_str() {
         "transfer-nocookie" => Some(None),
         "transfer-cookie" => Some(Some(valid_cookie(COOKIE_SECRET, 5, &case.cfg.client_addr.to_string(), CK_NAME, CK_UUID, &props(1)))),
+        "transfer-cookie-other-ip" => Some(Some(valid_cookie(COOKIE_SECRET, 5, "203.0.113.99:40123", CK_NAME, CK_UUID, &props(1)))),
+        "transfer-cookie-expired" => Some(Some(valid_cookie(COOKIE_SECRET, case.cfg.expiry as i64 + 60, &case.cfg.client_addr.to_string(), CK_NAME, CK_UUID, &props(1)))),
+        "transfer-cookie-forged" => Some(Some(valid_cookie(b"not-the-secret", 5, &case.cfg.client_addr.to_string(), CK_NAME, CK_UUID, &props(1)))),
         _ => None,
     };
     case.script = login.steps();
@@ -101,6 +107,8 @@ fn build(s: &Spec, stale: &[u8]) -> Case {
             case.transport.write_chunk = Some(1);
         }
         "slow-auth" => case.adapters.auth_ms = 17_000,
+        "auth-8s" => case.adapters.auth_ms = 8_000,
+        "auth-never" => case.adapters.auth_ms = 1_000_000,
         "slow-routing" => {
             case.adapters.disc_ms = 17_000;
             case.adapters.strat_ms = 17_000;
@@ -118,6 +126,10 @@ fn expected_identity(s: &Spec) -> Option<(String, u128, Vec<Prop>)> {
     }
     if s.intent == "transfer-cookie" {
         return Some((CK_NAME.to_string(), CK_UUID, props(1)));
+    }
+    if s.transport == "auth-never" {
+        // nobody has vouched for anything within the horizon
+        return None;
     }
     match verdict_of(s) {
         AuthPlan::Profile { name, uuid, props } => Some((name, uuid, props)),
@@ -145,7 +157,9 @@ fn judge(s: &Spec, case: &Case, obs: &Obs) -> Vec<(String, String)> {
                     bad(&format!("granted-without-authentication:{k}"), format!("{k} was sent although nothing vouches for the client; packets {:?}", obs.kinds()));
                 }
             }
-            if !obs.result.is_err() {
+            // (a service that has not answered yet has not failed: that connection may still be waiting)
+            let waiting = s.transport == "auth-never" && !auth_calls.is_empty() && matches!(obs.result, RunResult::Horizon);
+            if !obs.result.is_err() && !waiting {
                 bad("unauthenticated-connection-did-not-end", format!("listen() returned {}", obs.result.kind()));
             }
             if !routing_calls.is_empty() {
@@ -233,7 +247,7 @@ fn judge(s: &Spec, case: &Case, obs: &Obs) -> Vec<(String, String)> {
 }
 
 fn specs(thorough: bool) -> Vec<Spec> {
-    let intents = ["login", "login-secret", "transfer-nosecret", "transfer-nocookie", "transfer-cookie"];
+    let intents = ["login", "login-secret", "transfer-nosecret", "transfer-nocookie", "transfer-cookie", "transfer-cookie-other-ip", "transfer-cookie-expired", "transfer-cookie-forged"];
     let mut encs: Vec<String> = ["honest", "wrong-token", "stale-token", "other-key", "secret-garbage", "token-garbage"].iter().map(|s| s.to_string()).collect();
     for n in [0usize, 1, 127, 128, 129, 256] {
         encs.push(format!("garbage-{n}"));
@@ -255,7 +269,7 @@ fn specs(thorough: bool) -> Vec<Spec> {
             for verdict in verdicts {
                 for routing in [true, false] {
                     for claim in &claims {
-                        for transport in if thorough { vec!["plain", "one-byte", "slow-auth", "slow-routing"] } else { vec!["plain"] } {
+                        for transport in ["plain", "one-byte", "slow-auth", "auth-8s", "auth-never", "slow-routing"] {
                             out.push(Spec { intent: intent.into(), enc: enc.clone(), verdict: verdict.into(), routing, claim: claim.to_string(), transport: transport.into() });
                         }
                     }
@@ -335,7 +349,7 @@ pub fn run(cli: Cli) -> ! {
     rep.set("admitted", json!(admitted.load(Ordering::Relaxed)));
     rep.set("refused", json!(refused.load(Ordering::Relaxed)));
     rep.set("exhaustive", json!(true));
-    rep.set("rule", json!("full product intent(5) x encryption response(21) x authentication verdict(7) x routing(2) [x claimed identity shape(3) x transport/latency variant(4) in thorough]; one connection per element plus one prior connection that supplies the stale token; a state is the script reaching it"));
+    rep.set("rule", json!("full product intent(8, three of them with a genuine-but-inapplicable or forged cookie of another identity) x encryption response(21) x authentication verdict(7) x routing(2) x transport/latency variant(6: plain, one byte at a time, authentication taking 8 s / 17 s / longer than the horizon, routing taking 34 s) [x claimed identity shape(3) in thorough]; one connection per element plus one prior connection that supplies the stale token; a state is the script reaching it"));
     rep.sample(json!({"spec": all[0]}));
     rep.sample(json!({"spec": Spec { intent: "transfer-cookie".into(), enc: "honest".into(), verdict: "err".into(), routing: true, claim: "ascii".into(), transport: "plain".into() }, "expect": "admitted as the cookie's identity, service not called"}));
     rep.sample(json!({"spec": Spec { intent: "login".into(), enc: "token-prefix-1".into(), verdict: "claim".into(), routing: true, claim: "ascii".into(), transport: "plain".into() }, "expect": "nothing granted"}));
